@@ -122,7 +122,20 @@ Print Assumptions C13_pending_has_no_newline.
     where which object "its stdout / stdin" is, is computed from the regenerated
     factory.  [d_events] = the OnWriteStdout sequence, [d_real] = what the real
     stdout received, [d_prompts n] = the texts handed to the prompt function by
-    the Pdb of trace n.  [prompt] = Pdb.prompt, any text. *)
+    the Pdb of trace n.  [prompt] = Pdb.prompt, any text.
+
+    ASSUMPTIONS, visible as hypotheses on the label list: pdb's behaviour is not
+    translated.  What CPython's pdb does BESIDE writing to the stdout it was
+    constructed with has labels of its own:
+      LDbgSysWrite n s          the Pdb of trace n writes s to sys.stdout (`help pdb` -> pydoc.pager;
+                                the `>>> ` of `interact`)
+      LSwapOn n / LSwapOff n    Pdb.default (a `!statement`) binds sys.stdout to its own stream,
+                                PROCESS-WIDE, while the statement runs
+    [no_sys_write ls] / [no_swap ls] say that the run contains none of them.  They
+    are FALSE of CPython 3.12's pdb: see the two `_refuted_` theorems (both
+    histories are reproduced against /repo by harness/props/c13.py and are
+    recorded as findings); [C13_tie_reported_and_real_exact] says what is
+    reported and what reaches the real stdout WITHOUT the assumptions. *)
 From Coq Require Import String.
 From NL Require Import Stdout.DebugSyntax Stdout.DebugTie Gen.DebuggerStream.
 
@@ -130,7 +143,7 @@ From NL Require Import Stdout.DebugSyntax Stdout.DebugTie Gen.DebuggerStream.
     from the run leaves the reported sequence unchanged (all keys at once, hence
     per key); it is the sequence Stdout/Model.v reports for the script's writes
     alone -- so no character of debugger text is ever reported *)
-Theorem C13_debugger_text_never_reported : forall prompt ls,
+Theorem C13_debugger_text_never_reported : forall prompt ls, no_sys_write ls -> no_swap ls ->
   d_events prompt ls = d_events prompt (erase_dbg ls) /\
   d_events prompt ls = events (script_writes ls).
 Proof. exact debugger_text_never_reported. Qed.
@@ -138,46 +151,74 @@ Proof. exact debugger_text_never_reported. Qed.
 (** what is reported for trace n is a prefix of what the SCRIPT wrote in trace n
     (up to its last newline), whatever the debugger of n -- which runs in the
     same thread, under the same trace number -- wrote in between *)
-Theorem C13_reported_is_script_text : forall prompt ls n, n <> 0 ->
+Theorem C13_reported_is_script_text : forall prompt ls n, no_sys_write ls -> no_swap ls -> n <> 0 ->
   reported_of (Some n) (d_events prompt ls) = upto_last_nl (writes_of (Some n) (script_writes ls)).
 Proof. exact reported_is_script_text. Qed.
 
 (** PASSTHROUGH: the real stdout receives exactly the script's writes, in order,
     each once, and nothing of the debugger's; this is [real] of Stdout/Model.v
     on the script's writes, i.e. C13_passthrough transfers to every interleaving *)
-Theorem C13_real_stdout_gets_everything : forall prompt ls,
+Theorem C13_real_stdout_gets_everything : forall prompt ls, no_sys_write ls -> no_swap ls ->
   d_real prompt ls = map text_of (script_writes ls) /\ d_real prompt ls = real (script_writes ls).
 Proof. exact real_stdout_gets_everything. Qed.
 
 (** ... whatever the callback does (any state of its own, any function) *)
 Theorem C13_tie_real_stdout_any_callback : forall (C : Type) (cb : pykey -> text -> C -> C) prompt c0 ls,
+  no_sys_write ls -> no_swap ls ->
   snd (g_w _ (grun (C * list text) (cbk_any C cb) (org_any C) prompt (c0, []) ls)) = map text_of (script_writes ls).
 Proof. exact real_any_callback. Qed.
 
 Theorem C13_tie_noninterference_any_callback : forall (W : Type) cbk org prompt (w : W) ls,
+  no_sys_write ls -> no_swap ls ->
   g_w W (grun W cbk org prompt w (erase_dbg ls)) = g_w W (grun W cbk org prompt w ls).
 Proof. exact grun_noninterference. Qed.
 
 (** the capture state (buffer, events, real stdout) after any interleaving is
     that of Stdout/Model.v on the script's writes: every theorem above transfers *)
-Theorem C13_tie_run_is_model : forall prompt ls, g_w _ (drun prompt ls) = run (script_writes ls).
+Theorem C13_tie_run_is_model : forall prompt ls, no_sys_write ls -> no_swap ls ->
+  g_w _ (drun prompt ls) = run (script_writes ls).
 Proof. exact drun_is_model. Qed.
+
+(** WITHOUT the assumptions (every label list): what is reported and what the
+    real stdout receives is exactly Stdout/Model.v on the writes that REACH the
+    patched sys.stdout -- the script's writes made while sys.stdout is not
+    swapped, plus the debugger's own writes to sys.stdout *)
+Theorem C13_tie_reported_and_real_exact : forall prompt ls,
+  d_events prompt ls = events (reaching ls) /\ d_real prompt ls = map text_of (reaching ls).
+Proof. exact reported_and_real_exact. Qed.
+
+(** REFUTED without [no_sys_write]: `help pdb` (pydoc writes the module
+    documentation to sys.stdout, in the traced thread): that text IS reported as
+    output of the trace, and erasing the debugger changes the report *)
+Theorem C13_debugger_text_never_reported_refuted_help_pdb :
+  exists prompt ls, no_swap ls /\ d_events prompt ls <> d_events prompt (erase_dbg ls) /\
+                    exists n s, In (LDbgSysWrite n s) ls /\ In (Some n, s) (d_events prompt ls).
+Proof. exact never_reported_refuted_help_pdb. Qed.
+
+(** REFUTED without [no_swap]: a `!statement` at a prompt of trace 1 while the
+    thread of trace 2 prints: that line is neither reported nor written to the
+    real stdout (it ends up in trace 1's prompt text, [ex_bang_statement]) *)
+Theorem C13_real_stdout_refuted_bang_statement_other_thread :
+  exists prompt ls, no_sys_write ls /\ d_real prompt ls <> map text_of (script_writes ls) /\
+                    exists a s, In (LScript (Some a) s) ls /\ ~ In s (d_real prompt ls) /\
+                                ~ In (Some a, s) (d_events prompt ls).
+Proof. exact real_stdout_refuted_bang_statement. Qed.
 
 (** PROMPT TEXT (what C06's text-attribution oracle relies on): the texts
     handed to the prompt function for trace n and the commands returned to its
     Pdb are a function of the history of n's debugger alone ... *)
-Theorem C13_tie_prompt_text_is_debugger_text : forall prompt ls n,
+Theorem C13_tie_prompt_text_is_debugger_text : forall prompt ls n, no_swap ls ->
   d_prompts prompt n ls = prompts_hist prompt n ls /\ d_cmds prompt n ls = cmds_hist prompt n ls.
 Proof. exact prompt_text_is_debugger_text. Qed.
 
-Theorem C13_tie_prompts_independent : forall prompt ls n,
+Theorem C13_tie_prompts_independent : forall prompt ls n, no_swap ls ->
   d_prompts prompt n ls = d_prompts prompt n (filter (dbg_only n) ls).
 Proof. exact prompts_independent. Qed.
 
 (** ... when the debugger behaves like Pdb (what it wrote since its last read
     ends with the prompt whenever it reads), each prompt text is EXACTLY what the
     debugger of n wrote since its last readline ... *)
-Theorem C13_tie_prompt_text_since_last_readline : forall prompt ls n,
+Theorem C13_tie_prompt_text_since_last_readline : forall prompt ls n, no_swap ls ->
   pdb_like prompt n ls = true -> d_prompts prompt n ls = segments n ls.
 Proof. exact prompt_text_since_last_readline. Qed.
 
@@ -230,6 +271,14 @@ Theorem C13_tie_pdb_streams_own : forall prompt,
             obj_of_stream prompt (SelfStdio x) = Some (mkS (VText prompt) VPromptFn (VText [])).
 Proof. exact pdb_streams_own. Qed.
 
+(** CustomizedPdb overrides nothing of Pdb that prints: its only members are
+    __init__/_cmdloop/cmdloop/set_continue (anything else is refused by the
+    translator) and every call they make is on this list (PIN of the call names) *)
+Theorem C13_tie_pdb_overrides_harmless :
+  forallb (fun m => existsb (String.eqb (fst m)) ["__init__"; "_cmdloop"; "cmdloop"; "set_continue"]%string
+                    && forallb harmless_callee (snd m)) pdb_override_calls = true.
+Proof. exact pdb_overrides_harmless. Qed.
+
 (** the wrapper installed on sys.stdout.write: callback(s), then the ORIGINAL
     write with the same s, whose value it returns; only a raising callback keeps
     the text from the real stdout; it is the function Stdout/Model.v is built on *)
@@ -251,8 +300,10 @@ Theorem C13_tie_sys_write_is_model_step : forall a s st,
 Proof. exact sys_write_is_model_step. Qed.
 
 (** peek_textio installs the wrapper exactly while the block runs and restores
-    the original write; what is wrapped is sys.stdout; no other print / sys.stdout
-    in the code that runs in the child *)
+    the original write (run of the regenerated save/install/yield/restore list; the
+    `finally` is body-then-finally: no exception inside the `with` is modelled);
+    what is wrapped is sys.stdout; no other print / sys.stdout in the code that
+    runs in the child (PIN: a syntactic scan of nextline/spawned, nextline/utils) *)
 Theorem C13_tie_peek_context_manager : p_at_yield peek_cm = [WWrapper] /\ p_cur peek_cm = WOrg.
 Proof. exact peek_cm_spec. Qed.
 
@@ -284,6 +335,9 @@ Print Assumptions C13_real_stdout_gets_everything.
 Print Assumptions C13_tie_real_stdout_any_callback.
 Print Assumptions C13_tie_noninterference_any_callback.
 Print Assumptions C13_tie_run_is_model.
+Print Assumptions C13_tie_reported_and_real_exact.
+Print Assumptions C13_debugger_text_never_reported_refuted_help_pdb.
+Print Assumptions C13_real_stdout_refuted_bang_statement_other_thread.
 Print Assumptions C13_tie_prompt_text_is_debugger_text.
 Print Assumptions C13_tie_prompts_independent.
 Print Assumptions C13_tie_prompt_text_since_last_readline.
@@ -294,6 +348,7 @@ Print Assumptions C13_tie_stdinout_quiet.
 Print Assumptions C13_tie_stdinout_readline.
 Print Assumptions C13_tie_pdb_stdout_private.
 Print Assumptions C13_tie_pdb_streams_own.
+Print Assumptions C13_tie_pdb_overrides_harmless.
 Print Assumptions C13_tie_wrapper.
 Print Assumptions C13_tie_wrapper_callback_raises.
 Print Assumptions C13_tie_wrapper_is_peek_write.
